@@ -15,3 +15,7 @@ def c13_b(R, ctx):
 
 def c13_d(R, ctx):
     pass
+
+
+def c14_a(R, ctx):
+    pass
